@@ -32,4 +32,12 @@ impl AtomicInstant {
     pub(crate) fn set_instant(&self, instant: Instant) {
         *self.instant.write().expect("lock poisoned") = Some(instant);
     }
+
+    /// Sets the instant unless a later one has been set already.
+    pub(crate) fn advance_to(&self, instant: Instant) {
+        let mut current = self.instant.write().expect("lock poisoned");
+        if current.map_or(true, |c| c < instant) {
+            *current = Some(instant);
+        }
+    }
 }
